@@ -38,7 +38,8 @@ def seeded():
                 caught.append("%s: %s" % (p, cl[:220]))
                 concrete.append("yes" if x.get("concrete") else "no (no-failing-input-found)")
             else:
-                caught.append("%s: **not caught**" % p)
+                why = m.get("absorbed") and "absorbed by a later repair: " + str(m["absorbed"]) or m.get("outside") and "outside the quantifier: " + str(m["outside"])
+                caught.append("%s: **not caught**%s" % (p, " (%s)" % why[:260] if why else ""))
                 concrete.append("-")
         desc = (str(m.get("breaks", "")) + " — needs: " + str(m.get("needs", "")))[:420].replace("|", "\\|").replace("\n", " ")
         rows.append("| %s | %s | %s | %s | %s |" % (sid, m.get("property"), desc, "<br>".join(caught).replace("|", "\\|") or "not run", "<br>".join(concrete)))
